@@ -69,3 +69,27 @@ Theorem C09_pdf_draw_in_range_partial : forall w edges p,
   hd 0 edges <= interp1 (combine (cdf w) edges) p <= last edges 0.
 Proof. exact pdf_draw_in_range_partial. Qed.
 Print Assumptions C09_pdf_draw_in_range_partial.
+
+(* the interpolation range reaches the draw functions: LensLikelihood.__init__ (real source, with the real KinScaling.__init__ and
+   param_bounds_interpol; collaborators' constructors record their keywords) hands the per-axis (min, max) of the scaling grid axes to BOTH
+   the lens distribution and the anisotropy distribution, with this lens' own flags; so C09_first_accept_in_range's [min, max] are the axis
+   minimum and maximum *)
+Require Import C09.Handover.
+Theorem C09_range_handover : forall (a0 a1 a2 b0 b1 : R) (ifu : bool) (x y : R) rg cu,
+  exists o,
+  yields Gh 200 (CClass "LensLikelihood" src_LensLikelihood_init) None [numh (1/2); numh 2]
+    [("likelihood_type", VStr "IFUKinCov"); ("mst_ifu", VBool ifu); ("lambda_scaling_property", numh x); ("lambda_scaling_property_beta", numh y);
+     ("anisotropy_model", VStr "GOM"); ("anisotropy_sampling", VBool true); ("anisotropy_distribution", VStr "GAUSSIAN");
+     ("kin_scaling_param_list", VList [VStr "a_ani"; VStr "beta_inf"]); ("j_kin_scaling_param_axes", VList [vech [a0; a1; a2]; vech [b0; b1]]);
+     ("j_kin_scaling_grid_list", VList [grid]); ("num_distribution_draws", VInt 20)] rg cu o cu []
+  /\ (exists fs, field o "_lens_distribution" = Some (VObj "LensDistribution" fs)
+        /\ field_get "kwargs_min" fs = Some (kmin a0 a1 a2 b0 b1) /\ field_get "kwargs_max" fs = Some (kmax a0 a1 a2 b0 b1)
+        /\ field_get "mst_ifu" fs = Some (VBool ifu)
+        /\ field_get "lambda_scaling_property" fs = Some (numh x) /\ field_get "lambda_scaling_property_beta" fs = Some (numh y))
+  /\ (exists fs, field o "_aniso_distribution" = Some (VObj "AnisotropyDistribution" fs)
+        /\ field_get "kwargs_anisotropy_min" fs = Some (kmin a0 a1 a2 b0 b1) /\ field_get "kwargs_anisotropy_max" fs = Some (kmax a0 a1 a2 b0 b1)
+        /\ field_get "anisotropy_model" fs = Some (VStr "GOM") /\ field_get "distribution_function" fs = Some (VStr "GAUSSIAN")
+        /\ field_get "anisotropy_sampling" fs = Some (VBool true))
+  /\ field o "_num_distribution_draws" = Some (VInt 20).
+Proof. exact range_handover. Qed.
+Print Assumptions C09_range_handover.
